@@ -320,6 +320,11 @@ func Follow(file string, o AppOpts, dbBackend string) error {
 		}
 		o.DB = db
 	}
+	var leak *leakDB
+	if o.DB == nil {
+		leak = newLeakDB(dbm.NewMemDB())
+		o.DB = leak
+	}
 	a, cleanup := NewApp(o, nil)
 	defer cleanup()
 	sc := bufio.NewScanner(f)
@@ -350,6 +355,9 @@ func Follow(file string, o AppOpts, dbBackend string) error {
 			res, err := a.FinalizeBlock(&req)
 			if err != nil {
 				return err
+			}
+			if leak != nil {
+				leak.CloseLeaked() // see leakdb.go: an unclosed iterator would block the in-memory database in Commit
 			}
 			if _, err := a.Commit(); err != nil {
 				return err
